@@ -101,41 +101,42 @@ def ob_cascade_rows(h):
 
 
 def ob_pinch_idx(h):
-    """ProblemTable.pinch_idx / pinch_temperatures on a residual column of ANY length >= 2."""
+    """ProblemTable.pinch_idx / pinch_temperatures on a residual column of ANY length >= 2.  Statements about 'every row' are made at
+    the arbitrary rows q, a, b (quantifier-free: each is one symbolic row index)."""
     pt, n = qtable(h, nmin=2)
     H = pt.col[PT.H_NET.value]
+    N = SymInt(n)
     zero = lambda i: abs(H.at(i)) < tol
-    zi = lambda iz: z3.And(lift_real(H.at(iz)) < TOL, -lift_real(H.at(iz)) < TOL)
-    q = z3.Int("qz")
-    all_zero = SymBool(z3.ForAll([q], z3.Implies(z3.And(q >= 0, q < n), zi(q))))
-    any_zero = SymBool(z3.Exists([q], z3.And(q >= 0, q < n, zi(q))))
-    h.exclude_known("KF-C06-all-zero", all_zero)
+    first, last = SymInt(z3.IntVal(0)), SymInt(n - 1)
+    q, a, b, k, nzr = (SymInt(z3.Int(x)) for x in ("q", "a", "b", "k", "some_nonzero_row"))
+    for r in (q, a, b, k, nzr):
+        h.assume(And(r >= 0, r < N))
+        h.row_term(r)
+    # recorded finding: a residual that is zero on EVERY row is reported as having no pinch; outside it, some row is not a zero
+    h.exclude_known("KF-C06-all-zero", zero(nzr))
     rh, rc, valid = pt.pinch_idx()
     h.must_not_prove("canary_false", False)
     h.must_not_prove("canary_pinch_on_top_row", rh == 0)
-    h.check("rows_in_range", And(rh >= 0, rh < SymInt(n), rc >= 0, rc < SymInt(n)))
+    h.check("rows_in_range", And(rh >= 0, rh < N, rc >= 0, rc < N))
     h.check("valid_iff_hot_not_below_cold", (rh <= rc) == valid if isinstance(valid, SymBool) else bool(rh <= rc) == bool(valid))
-    h.check("absent_only_if_no_zero", Implies(Not(valid), Not(any_zero)))
+    h.check("absent_only_if_no_zero", Implies(Not(valid), Not(zero(q))))
     if valid:
         h.check("hot_pinch_row_is_a_zero", zero(rh))
         h.check("cold_pinch_row_is_a_zero", zero(rc))
-        k = SymInt(z3.Int("k"))
-        h.assume(And(k >= 0, k < SymInt(n)))
-        lead_k = SymBool(z3.ForAll([q], z3.Implies(z3.And(q >= 0, q <= k.z), zi(q))))
-        trail_k = SymBool(z3.ForAll([q], z3.Implies(z3.And(q >= k.z, q < n), zi(q))))
-        h.check("every_zero_between_or_in_touching_run", Implies(zero(k), Or(And(rh <= k, k <= rc), lead_k, trail_k)))
+        # a zero at row k lies between the pinches unless it sits in a run of zeros touching an end of the range: if there is a
+        # non-zero row a above it and a non-zero row b below it, it is between the pinches
+        h.check("every_zero_between_or_in_touching_run", Implies(And(zero(k), a <= k, Not(zero(a)), k <= b, Not(zero(b))), And(rh <= k, k <= rc)))
         # threshold rule / ordinary rule for the hot pinch
-        lead_rh = SymBool(z3.ForAll([q], z3.Implies(z3.And(q >= 0, q <= rh.z), zi(q))))
-        none_before = SymBool(z3.ForAll([q], z3.Implies(z3.And(q >= 0, q < rh.z), z3.Not(zi(q)))))
-        next_nonzero = Or(rh == SymInt(n - 1), Not(zero(rh + 1)))
-        h.check("hot_pinch_rule", And(Implies(zero(SymInt(z3.IntVal(0))), And(lead_rh, next_nonzero)), Implies(Not(zero(SymInt(z3.IntVal(0)))), none_before)))
-        trail_rc = SymBool(z3.ForAll([q], z3.Implies(z3.And(q >= rc.z, q < n), zi(q))))
-        none_after = SymBool(z3.ForAll([q], z3.Implies(z3.And(q > rc.z, q < n), z3.Not(zi(q)))))
-        prev_nonzero = Or(rc == 0, Not(zero(rc - 1)))
-        h.check("cold_pinch_rule", And(Implies(zero(SymInt(n - 1)), And(trail_rc, prev_nonzero)), Implies(Not(zero(SymInt(n - 1))), none_after)))
+        h.check("hot_pinch_rule_threshold", Implies(zero(first), And(Implies(q <= rh, zero(q)), Or(rh == last, Not(zero(rh + 1))))))
+        h.check("hot_pinch_rule", Implies(Not(zero(first)), Implies(q < rh, Not(zero(q)))))
+        h.check("cold_pinch_rule_threshold", Implies(zero(last), And(Implies(q >= rc, zero(q)), Or(rc == 0, Not(zero(rc - 1))))))
+        h.check("cold_pinch_rule", Implies(Not(zero(last)), Implies(q > rc, Not(zero(q)))))
+        # pinch_temperatures against pinch_idx's contract (a pure function of the table: the same rows again)
+        h.stub(ProblemTable, "pinch_idx", lambda self, col=PT.H_NET.value: (rh, rc, valid))
         th, tc = pt.pinch_temperatures()
         h.check("temperatures_are_the_rows", And(h.eq(th, pt.col[PT.T.value].at(rh)), h.eq(tc, pt.col[PT.T.value].at(rc))))
     else:
+        h.stub(ProblemTable, "pinch_idx", lambda self, col=PT.H_NET.value: (rh, rc, valid))
         th, tc = pt.pinch_temperatures()
         h.check("absent_reported_as_none", th is None and tc is None)
 
@@ -189,7 +190,8 @@ def cascade_obligation(name):
 
 def pinch_obligation(name):
     return Obligation(name, ob_pinch_idx, kind="proof", functions=[ProblemTable.pinch_idx, ProblemTable.pinch_temperatures], timeout_ms=30000,
-                      expect=("hot_pinch_rule", "cold_pinch_rule", "absent_only_if_no_zero"),
+                      stubs=("pinch_idx inside pinch_temperatures (its own contract: the same rows for the same table)",),
+                      expect=("hot_pinch_rule", "cold_pinch_rule", "hot_pinch_rule_threshold", "cold_pinch_rule_threshold", "absent_only_if_no_zero"),
                       doc="UNBOUNDED in the number of rows: the property's wording over an arbitrary residual column of any length")
 
 
@@ -216,14 +218,16 @@ def ob_content_rows(h):
     # the grid is sorted with separated rows (SEP, as built by create_problem_table_with_t_int from 6-dp rounded distinct values); used in
     # the instances needed: adjacent rows, and every row against the rows that hold a stream bound
     h.assume_rows(lambda i: T.at(i - 1) - T.at(i) > SEP, 1, N)
-    m = h.choice("hot_streams", [1, 2])
+    m = h.choice("hot_streams", [1, 2])            # number of streams on the side under test
+    side = h.choice("side", ["hot", "cold"])
     is_shifted = h.choice("is_shifted", [True, False])
     streams, lo, hi, cps, facts = [], [], [], [], [SymBool(n >= 2)]
     for s in range(m):
         tmax, tmin, dt = h.real(f"s{s}_t_supply"), h.real(f"s{s}_t_target"), h.real(f"s{s}_dt", lo=0)
         cp = h.choice(f"s{s}_cp", [1.0, 3.0])
         h.assume(tmax - tmin > 1e-5)
-        st = Stream(f"s{s}", tmax, tmin, dt_cont=dt, heat_flow=cp * (tmax - tmin), htc=1.0)
+        st = Stream(f"s{s}", tmax, tmin, dt_cont=dt, heat_flow=cp * (tmax - tmin), htc=1.0) if side == "hot" else \
+            Stream(f"s{s}", tmin, tmax, dt_cont=dt, heat_flow=cp * (tmax - tmin), htc=1.0)
         a, b = (st.t_max_star, st.t_min_star) if is_shifted else (st.t_max, st.t_min)
         for nm, val in (("max", a), ("min", b)):          # both bounds of the stream are rows of the grid
             r = SymInt(z3.Int(f"row_of_s{s}_{nm}"))
@@ -233,7 +237,12 @@ def ob_content_rows(h):
             h.row_term(r)
             h.assume_rows((lambda r: lambda i: And(Implies(i < r, T.at(i) - T.at(r) > SEP), Implies(i > r, T.at(r) - T.at(i) > SEP)))(r), 0, N)
         streams.append(st); hi.append(a); lo.append(b); cps.append(cp)
-    pta.problem_table_algorithm(pt, streams, None, is_shifted)
+    if side == "hot":
+        pta.problem_table_algorithm(pt, streams, None, is_shifted)
+        CPC, HC = PT.CP_HOT.value, PT.H_HOT.value
+    else:
+        pta.problem_table_algorithm(pt, None, streams, is_shifted)
+        CPC, HC = PT.CP_COLD.value, PT.H_COLD.value
     g = lambda col, r: _g(pt, col, r)
     below = lambda s, t: sym_max0(sym_min(t, hi[s]) - lo[s])
     content = lambda r: sum((cps[s] * below(s, T.at(r)) for s in range(m)), 0.0)
@@ -245,17 +254,25 @@ def ob_content_rows(h):
         lemmas.append(h.lemma_rows("activity_test_means_stream_spans_the_interval", (lambda s: lambda r: And(
             (hi[s] > T.at(r) + 10 * tol) == (T.at(r - 1) <= hi[s]), (lo[s] < T.at(r - 1) - 10 * tol) == (T.at(r) >= lo[s])))(s), N, base=1, facts=facts))
         lemmas.append(h.lemma_rows("stream_content_between_adjacent_rows", (lambda s: lambda r: h.eq(below(s, T.at(r - 1)) - below(s, T.at(r)), sym_ite(spans(s, r), T.at(r - 1) - T.at(r), 0.0)))(s), N, base=1, facts=facts))
-    cp_lemma = h.lemma_rows("interval_heat_capacity_is_sum_of_spanning_streams", lambda r: h.eq(g(PT.CP_HOT.value, r), sum((sym_ite(spans(s, r), cps[s], 0.0) for s in range(m)), 0.0)), N, base=1,
+    cp_lemma = h.lemma_rows("interval_heat_capacity_is_sum_of_spanning_streams", lambda r: h.eq(g(CPC, r), sum((sym_ite(spans(s, r), cps[s], 0.0) for s in range(m)), 0.0)), N, base=1,
                             using=lemmas, facts=facts)
-    h.must_not_prove("canary_no_stream_active", h.eq(g(PT.CP_HOT.value, k), 0.0))
+    h.must_not_prove("canary_no_stream_active", h.eq(g(CPC, k), 0.0))
     h.must_not_prove("canary_false", False)
     # CONTENT: the curve is anchored at the bottom, so prove that curve - content is constant over the rows, then evaluate at the bottom
-    gap = lambda r: g(PT.H_HOT.value, r) - content(r)
-    h.induct("hot_curve_minus_heat_content_is_constant", lambda r: h.eq(gap(r), gap(zero)), N, using=lemmas + [cp_lemma], facts=facts)
+    gap = lambda r: g(HC, r) - content(r)
+    h.induct("curve_minus_heat_content_is_constant", lambda r: h.eq(gap(r), gap(zero)), N, using=lemmas + [cp_lemma], facts=facts)
     h.check("no_heat_content_below_the_bottom_row", h.eq(content(last), 0.0))
-    h.check("hot_curve_zero_at_bottom", h.eq(g(PT.H_HOT.value, last), 0.0))
-    h.check("hot_curve_is_heat_content_below_the_row", h.eq(g(PT.H_HOT.value, jj), content(jj)))
-    h.check("hot_curve_spans_total_duty", h.eq(g(PT.H_HOT.value, zero), sum((cps[s] * (hi[s] - lo[s]) for s in range(m)), 0.0)))
+    total = sum((cps[s] * (hi[s] - lo[s]) for s in range(m)), 0.0)
+    if side == "hot":
+        h.check("hot_curve_zero_at_bottom", h.eq(g(HC, last), 0.0))
+        h.check("curve_is_heat_content_below_the_row", h.eq(g(HC, jj), content(jj)))
+        h.check("curve_spans_total_duty", h.eq(g(HC, zero), total))
+    else:
+        # the documented horizontal offset of the cold curve: it starts at Qc (the residual at the bottom row)
+        qc = g(PT.H_NET.value, last)
+        h.check("cold_curve_starts_at_Qc", h.eq(g(HC, last), qc))
+        h.check("curve_is_heat_content_below_the_row", h.eq(g(HC, jj), content(jj) + qc))
+        h.check("curve_spans_total_duty", h.eq(g(HC, zero) - g(HC, last), total))
 
 
 def sym_min(a, b):
@@ -270,6 +287,6 @@ def sym_max0(a):
 
 def content_obligation(name):
     return Obligation(name, ob_content_rows, kind="proof", functions=[pta._sum_mcp_between_temperature_boundaries, pta.problem_table_algorithm], timeout_ms=60000,
-                      expect=("hot_curve_is_heat_content_below_the_row", "hot_curve_minus_heat_content_is_constant.step", "interval_heat_capacity_is_sum_of_spanning_streams", "activity_test_means_stream_spans_the_interval"),
-                      bound="UNBOUNDED in rows; 1..2 hot streams with symbolic temperatures and contributions, heat-capacity flow rates from {1, 3}",
-                      doc="CONTENT: on any sorted, separated grid containing the streams' bounds the hot composite equals the exact heat content below each row (induction over rows)")
+                      expect=("curve_is_heat_content_below_the_row", "curve_minus_heat_content_is_constant.step", "interval_heat_capacity_is_sum_of_spanning_streams", "activity_test_means_stream_spans_the_interval"),
+                      bound="UNBOUNDED in rows; 1..2 streams on one side (hot or cold) with symbolic temperatures and contributions, heat-capacity flow rates from {1, 3}",
+                      doc="CONTENT: on any sorted, separated grid containing the streams' bounds the hot / cold composite equals the exact heat content below each row, the cold one offset by Qc (induction over rows)")
